@@ -3,36 +3,6 @@ import DendroModel.Theory.C08Base
 namespace DendroModel.C08
 open DendroModel
 
-mutual
-/-- node records in pre-order: (id, taxon, length, label) -/
-def heads : T → List (Nat × Option Nat × Option Frac × Option String)
-  | .node i x l s cs => (i, x, l, s) :: headsL cs
-def headsL : List T → List (Nat × Option Nat × Option Frac × Option String)
-  | [] => []
-  | c :: cs => heads c ++ headsL cs
-end
-
-mutual
-def NoUnary : T → Prop
-  | .node _ _ _ _ cs => cs.length ≠ 1 ∧ NoUnaryL cs
-def NoUnaryL : List T → Prop
-  | [] => True
-  | c :: cs => NoUnary c ∧ NoUnaryL cs
-end
-
-mutual
-/-- the lengths on the path from the first kept leaf up to (and including) this node's own edge, accumulated the way
-    suppression does it (`child.length += parent.length`, `addLen`) -/
-def pathAcc (keep : Acc) : T → Option (Option Frac)
-  | .node i x l _ [] => if keep i x then some l else none
-  | .node _ _ l _ (c :: cs) => (pathAccL keep (c :: cs)).map (fun a => addLen a l)
-def pathAccL (keep : Acc) : List T → Option (Option Frac)
-  | [] => none
-  | c :: cs => match pathAcc keep c with
-    | some a => some a
-    | none => pathAccL keep cs
-end
-
 namespace Aux
 
 theorem withLen_len (t : T) (a : Option Frac) : (t.withLen a).len = a := by
@@ -403,6 +373,138 @@ theorem singleL_aux (keep : Acc) : ∀ (cs : List T) (lf : T), (T.leavesL cs).fi
       · obtain ⟨a, a1, a2⟩ := single_aux keep c lf e1
         obtain ⟨b1, b2⟩ := noneL_aux keep true cs e2
         exact ⟨a, by simp [pathAccL, a1], by simp [restrictL, a2, b1]⟩
+end
+
+/-! ### declined suppression, full strength: which nodes stay, and the parent/child structure -/
+mutual
+theorem alive_any (keep : Acc) : ∀ t : T, alive keep t = t.leaves.any (fun lf => keep lf.id lf.taxon)
+  | .node i x l s [] => by simp [alive, T.leaves, T.id, T.taxon]
+  | .node i x l s (c :: cs) => by simp only [alive, T.leaves]; exact aliveL_any keep (c :: cs)
+theorem aliveL_any (keep : Acc) : ∀ cs : List T, aliveL keep cs = (T.leavesL cs).any (fun lf => keep lf.id lf.taxon)
+  | [] => by simp [aliveL, T.leavesL]
+  | c :: cs => by simp [aliveL, T.leavesL, alive_any keep c, aliveL_any keep cs]
+end
+
+theorem head_restrict (keep : Acc) (t r : T) (h : restrict keep false t = some r) : head r = head t := by
+  obtain ⟨i, x, l, s, cs⟩ := t
+  cases cs with
+  | nil =>
+    simp only [restrict] at h
+    split at h
+    · simp at h; subst h; rfl
+    · cases h
+  | cons c cs =>
+    simp only [restrict] at h
+    generalize restrictL keep false (c :: cs) = ks at h
+    match ks with
+    | [] => simp at h
+    | [k] => simp at h; subst h; rfl
+    | k1 :: k2 :: ks' => simp at h; subst h; rfl
+
+mutual
+theorem nodes_restrict (keep : Acc) : ∀ t : T,
+    alive keep t = (restrict keep false t).isSome ∧
+    (∀ r, restrict keep false t = some r → r.nodes.map head = (t.nodes.filter (alive keep)).map head) ∧
+    (restrict keep false t = none → t.nodes.filter (alive keep) = [])
+  | .node i x l s [] => by
+      by_cases hk : keep i x = true
+      · simp [restrict, alive, T.nodes, T.nodesL, hk]
+      · simp [restrict, alive, T.nodes, T.nodesL, hk]
+  | .node i x l s (c :: cs) => by
+      obtain ⟨la, ln⟩ := nodesL_restrict keep (c :: cs)
+      have hal : alive keep (.node i x l s (c :: cs)) = aliveL keep (c :: cs) := by simp [alive]
+      simp only [restrict]
+      generalize restrictL keep false (c :: cs) = ks at la ln
+      have hnode : ∀ k ks', ks = k :: ks' →
+          (T.node i x l s ks).nodes.map head = ((T.node i x l s (c :: cs)).nodes.filter (alive keep)).map head := by
+        intro k ks' hks
+        have : aliveL keep (c :: cs) = true := by rw [la, hks]; rfl
+        simp only [T.nodes, List.filter_cons, hal, this, if_true, List.map_cons, ln]
+        rfl
+      match ks with
+      | [] =>
+        have hd : aliveL keep (c :: cs) = false := by rw [la]; rfl
+        refine ⟨by simp [hal, hd], fun r hr => by simp at hr, fun _ => ?_⟩
+        have : (T.nodesL (c :: cs)).filter (alive keep) = [] := by
+          have := ln; simp only [T.nodesL, List.map_nil] at this
+          exact List.map_eq_nil_iff.mp this.symm
+        simp only [T.nodes, List.filter_cons, hal, hd, this]; simp
+      | [k] =>
+        refine ⟨by rw [hal, la]; rfl, fun r hr => ?_, fun h => by simp at h⟩
+        simp at hr; subst hr; exact hnode k [] rfl
+      | k1 :: k2 :: ks' =>
+        refine ⟨by rw [hal, la]; rfl, fun r hr => ?_, fun h => by simp at h⟩
+        simp at hr; subst hr; exact hnode k1 (k2 :: ks') rfl
+theorem nodesL_restrict (keep : Acc) : ∀ cs : List T,
+    aliveL keep cs = !(restrictL keep false cs).isEmpty ∧
+    (T.nodesL (restrictL keep false cs)).map head = ((T.nodesL cs).filter (alive keep)).map head
+  | [] => by simp [aliveL, restrictL, T.nodesL]
+  | c :: cs => by
+      obtain ⟨a1, a2, a3⟩ := nodes_restrict keep c
+      obtain ⟨b1, b2⟩ := nodesL_restrict keep cs
+      simp only [restrictL, aliveL, T.nodesL, List.filter_append, List.map_append]
+      cases hc : restrict keep false c with
+      | none =>
+        rw [hc] at a1
+        simp only [a1, Option.isSome_none, Bool.false_or, b1, a3 hc, List.map_nil, List.nil_append, b2]
+        trivial
+      | some r =>
+        rw [hc] at a1
+        simp only [a1, Option.isSome_some, Bool.true_or, T.nodesL, List.map_append, a2 r hc, b2]
+        simp
+end
+
+/-- what is observed of a parent/child pair: the parent's id and the child's record -/
+def eview (e : Nat × T) : Nat × (Nat × Option Nat × Option Frac × Option String) := (e.1, head e.2)
+
+mutual
+theorem pedges_dead (keep : Acc) : ∀ t : T, alive keep t = false → (pedges t).filter (fun e => alive keep e.2) = []
+  | .node i x l s [], _ => by simp [pedges, pedgesL]
+  | .node i x l s (c :: cs), h => by
+      simp only [alive] at h
+      simp only [pedges]; exact pedgesL_dead keep i (c :: cs) h
+theorem pedgesL_dead (keep : Acc) (p : Nat) : ∀ cs : List T, aliveL keep cs = false →
+    (pedgesL p cs).filter (fun e => alive keep e.2) = []
+  | [], _ => by simp [pedgesL]
+  | c :: cs, h => by
+      simp only [aliveL, Bool.or_eq_false_iff] at h
+      simp [pedgesL, List.filter_cons, h.1, pedges_dead keep c h.1, pedgesL_dead keep p cs h.2]
+end
+
+mutual
+theorem edges_restrict (keep : Acc) : ∀ t r : T, restrict keep false t = some r →
+    (pedges r).map eview = ((pedges t).filter (fun e => alive keep e.2)).map eview
+  | .node i x l s [], r, h => by
+      simp only [restrict] at h
+      split at h
+      · simp at h; subst h; simp [pedges, pedgesL]
+      · cases h
+  | .node i x l s (c :: cs), r, h => by
+      have hl := edgesL_restrict keep i (c :: cs)
+      simp only [restrict] at h
+      generalize restrictL keep false (c :: cs) = ks at h hl
+      match ks with
+      | [] => simp at h
+      | [k] => simp at h; subst h; simpa [pedges] using hl
+      | k1 :: k2 :: ks' => simp at h; subst h; simpa [pedges] using hl
+theorem edgesL_restrict (keep : Acc) (p : Nat) : ∀ cs : List T,
+    (pedgesL p (restrictL keep false cs)).map eview = ((pedgesL p cs).filter (fun e => alive keep e.2)).map eview
+  | [] => by simp [restrictL, pedgesL]
+  | c :: cs => by
+      have h2 := edgesL_restrict keep p cs
+      have ha := (nodes_restrict keep c).1
+      simp only [restrictL]
+      cases hc : restrict keep false c with
+      | none =>
+        rw [hc] at ha
+        have ha' : alive keep c = false := by simpa using ha
+        simp [pedgesL, List.filter_cons, ha', pedges_dead keep c ha', h2]
+      | some r =>
+        rw [hc] at ha
+        have ha' : alive keep c = true := by simpa using ha
+        have h1 := edges_restrict keep c r hc
+        have hh := head_restrict keep c r hc
+        simp [pedgesL, List.filter_cons, ha', h1, h2, eview, hh]
 end
 
 end Aux
